@@ -29,6 +29,7 @@ type RunResult struct {
 	PendingTimers []int // indexes of library timers still pending after the grace period
 	FreeBulkhead  map[int]int // end of run: TryAcquirePermit successes per bulkhead instance
 	BreakerEnd    map[int][2]int // end of run: breaker state and TryAcquirePermit successes while half-open
+	AW          *adapterWorld
 	BubblePanic string
 	Panics    []string
 	SimTime   time.Duration
@@ -60,13 +61,20 @@ func runScenario(t *testing.T, sc *Scenario, cfg simrt.Config) (res *RunResult) 
 			res.Sim = sim
 			res.Start = sim.Start()
 			w := &World{}
-			w.build(sc, log)
-			res.W = w
-			installInvariants(w, log)
-			for ci := range sc.Clients {
-				c := &sc.Clients[ci]
-				sim.Spawn(0, func() { w.runClient(ci, c) })
+			if sc.Adapter != nil {
+				w.sc, w.log = sc, log
+				aw := &adapterWorld{log: log, spec: sc.Adapter}
+				res.AW = aw
+				sim.Spawn(1, func() { runAdapter(aw) })
+			} else {
+				w.build(sc, log)
+				installInvariants(w, log)
+				for ci := range sc.Clients {
+					c := &sc.Clients[ci]
+					sim.Spawn(0, func() { w.runClient(ci, c) })
+				}
 			}
+			res.W = w
 			res.Out = sim.Run()
 			res.SimTime = res.Out.End.Sub(sim.Start())
 			log.closed = true
@@ -96,7 +104,9 @@ func runScenario(t *testing.T, sc *Scenario, cfg simrt.Config) (res *RunResult) 
 					}
 				}
 			}
-			w.postRun(res)
+			if sc.Adapter == nil {
+				w.postRun(res)
+			}
 			// leak registry: pending timers
 			res.Timers = sim.Timers()
 			for i, tr := range res.Timers {
@@ -118,6 +128,14 @@ func runScenario(t *testing.T, sc *Scenario, cfg simrt.Config) (res *RunResult) 
 				for _, c := range w.cancels {
 					if c != nil {
 						c()
+					}
+				}
+				if res.AW != nil {
+					if res.AW.cancelReq != nil {
+						res.AW.cancelReq()
+					}
+					if res.AW.cancelEx != nil {
+						res.AW.cancelEx()
 					}
 				}
 				for _, bh := range w.bhs {
@@ -480,6 +498,24 @@ func (e *Event) String() string {
 		fmt.Fprintf(&b, "standalone %s pol=%d a=%d b=%d", e.Str, e.Pos, e.A, e.B)
 	case EvNote:
 		fmt.Fprintf(&b, "note %s", e.Str)
+	case EvAdapter:
+		switch e.L {
+		case AdAttempt:
+			fmt.Fprintf(&b, "attempt %d received", e.A)
+			if e.B != 0 {
+				fmt.Fprintf(&b, " WRONG: %s %s", problemText(e.B), e.Str)
+			}
+		case AdAttemptEnd:
+			fmt.Fprintf(&b, "attempt %d answered status/code=%d err=%s", e.A, e.B, fmtErr(e.Err))
+		case AdReturn:
+			fmt.Fprintf(&b, "call returned status/reply=%d from attempt %d err=%s", e.A, e.B, fmtErr(e.Err))
+		case AdBodyRead:
+			fmt.Fprintf(&b, "caller read %d of %d body bytes err=%s", e.A, e.B, fmtErr(e.Err))
+		case AdBodyClose:
+			fmt.Fprintf(&b, "response body of attempt %d closed", e.A)
+		case AdCallerCancel:
+			fmt.Fprintf(&b, "caller cancels its context")
+		}
 	}
 	if e.Flags&FHasExec != 0 {
 		fmt.Fprintf(&b, " [att=%d exe=%d ret=%d hed=%d last=(%s,%s)]", e.Attempts, e.Executions, e.Retries, e.Hedges, fmtVal(e.LastVal), fmtErr(e.LastErr))
